@@ -70,7 +70,12 @@ Section Inv.
   Context {O : Type}.
   Variable orc : @oracle O.
 
-  Definition inv (s : state) : Prop := outputs_pos s = true.
+  (* everything add_change never writes: all fields except the outputs and the fee *)
+  Definition rest (s : state) :=
+    (s_cfg s, s_inputs s, s_fee_request s, s_certs s, s_withdrawals s, s_mint s, s_proposals s, s_donation s, s_treasury s).
+  Variable R0 : (config * list (N * value) * fee_request * option (list cert) * option (list (N * N)) * option mint_map *
+                 option (list N) * option N * option N)%type.
+  Definition inv (s : state) : Prop := outputs_pos s = true /\ rest s = R0.
   (* the invariant survives the run (whatever its result); a normal result satisfies Q *)
   Definition keeps {A} (m : @M O A) (Q : A -> Prop) : Prop :=
     forall s o, inv s -> inv (out_st (m s o)) /\ (forall a, out_res (m s o) = Ok a -> Q a).
@@ -104,10 +109,10 @@ Section Inv.
   Proof. intros H. eapply keeps_weaken; [exact H|]. intros; exact I. Qed.
 
   Lemma inv_set_final_fee v s : inv s -> inv (set_final_fee v s).
-  Proof. unfold inv, outputs_pos, set_final_fee, set_s_fee. cbn. exact (fun H => H). Qed.
+  Proof. unfold inv, outputs_pos, rest, set_final_fee, set_s_fee. cbn. exact (fun H => H). Qed.
   Lemma inv_add s x : inv s -> value_pos (o_amount x) = true -> inv (set_s_outputs (s_outputs s ++ [x]) s).
   Proof.
-    unfold inv, outputs_pos. cbn [s_outputs set_s_outputs]. intros H Hx. rewrite forallb_app, H. cbn [forallb]. rewrite Hx. reflexivity.
+    unfold inv, outputs_pos, rest. cbn. intros [H Hr] Hx. split; [|exact Hr]. rewrite forallb_app, H. cbn [forallb]. rewrite Hx. reflexivity.
   Qed.
 
   Ltac kb := eapply keeps_bind.
@@ -238,16 +243,16 @@ Section Inv.
 
   Lemma k_top_up_last cl : value_pos cl = true -> keeps (top_up_last orc cl) (fun _ => True).
   Proof.
-    intros Hcl. unfold top_up_last. kb; [apply keeps_get|]. intros s Hs. cbv beta in Hs.
+    intros Hcl. unfold top_up_last. kb; [apply keeps_get|]. intros s Hs. cbv beta in Hs. destruct Hs as [Hs Hrest].
     destruct (rev (s_outputs s)) as [|last before] eqn:Er; [apply keeps_lift; discriminate|].
     assert (Hall : forallb (fun x => value_pos (o_amount x)) (last :: before) = true).
-    { rewrite <- Er. unfold inv, outputs_pos in Hs. apply forallb_forall. intros x Hx. apply in_rev in Hx.
+    { rewrite <- Er. unfold outputs_pos in Hs. apply forallb_forall. intros x Hx. apply in_rev in Hx.
       exact (forallb_in _ _ _ Hs Hx). }
     cbn [forallb] in Hall. apply andb_true_iff in Hall as [Hlast Hbefore].
     kb; [apply keeps_lift; intros c E; exact E|]. intros amount E. cbv beta in E.
     assert (Ham : value_pos amount = true) by (eapply value_checked_add_pos; [exact Hlast|exact Hcl|exact E]).
     kb; [apply keeps_put|intros _ _; apply k_output_admissible].
-    unfold inv, outputs_pos. cbn [s_outputs set_s_outputs]. rewrite forallb_app. cbn [forallb o_amount]. rewrite Ham.
+    unfold inv, outputs_pos, rest. cbn. split; [|exact Hrest]. rewrite forallb_app. cbn [forallb o_amount]. rewrite Ham.
     rewrite andb_true_r. apply forallb_forall. intros x Hx. apply in_rev in Hx. exact (forallb_in _ _ _ Hbefore Hx).
   Qed.
 
@@ -304,14 +309,10 @@ Section Inv.
     kb; [apply k_check_fee|]. intros _ _. apply keeps_ret. exact I.
   Qed.
 
-  Theorem add_change_keeps_outputs_pos fuel addr extra s o :
-    outputs_pos s = true -> total_input_pos s = true ->
-    outputs_pos (out_st (add_change orc fuel addr extra s o)) = true.
+  Theorem add_change_keeps_inv fuel addr extra s o :
+    inv s -> total_input_pos s = true -> inv (out_st (add_change orc fuel addr extra s o)).
   Proof.
-    intros Hs Hti.
-    assert (K : keeps (add_change orc fuel addr extra) (fun _ => True) \/ True) by (right; exact I). clear K.
-    revert Hs. change (inv s -> inv (out_st (add_change orc fuel addr extra s o))).
-    intros Hs. unfold add_change.
+    intros Hs Hti. unfold add_change.
     (* the first step reads the state: unfold it by hand so that the totals are those of [s] *)
     unfold bindM at 1. cbn [get out_res out_st out_orc].
     destruct (s_fee s); [exact Hs|].
@@ -330,3 +331,14 @@ Section Inv.
       apply k_pure_branch. eapply value_checked_sub_pos; eassumption.
   Qed.
 End Inv.
+
+(* the two readings of the invariant: no degenerate entry in any output, and nothing but outputs and fee is written *)
+Theorem add_change_keeps_outputs_pos {O} (orc : @oracle O) fuel addr extra s o :
+  outputs_pos s = true -> total_input_pos s = true ->
+  outputs_pos (out_st (add_change orc fuel addr extra s o)) = true.
+Proof. intros Hs Hti. exact (proj1 (add_change_keeps_inv orc (rest s) fuel addr extra s o (conj Hs eq_refl) Hti)). Qed.
+
+Theorem add_change_frame {O} (orc : @oracle O) fuel addr extra s o :
+  outputs_pos s = true -> total_input_pos s = true ->
+  rest (out_st (add_change orc fuel addr extra s o)) = rest s.
+Proof. intros Hs Hti. exact (proj2 (add_change_keeps_inv orc (rest s) fuel addr extra s o (conj Hs eq_refl) Hti)). Qed.
